@@ -367,6 +367,13 @@ impl Metainfo {
         ranges
     }
 
+    /// Same torrent with a different info-hash (every byte value must be reachable in checks).
+    #[cfg(feature = "verif")]
+    pub fn verif_with_info_hash(mut self, info_hash: [u8; HASH_SIZE]) -> Metainfo {
+        self.info_hash = info_hash;
+        self
+    }
+
     fn piece_pos(&self, pos: usize) -> PiecePos {
         PiecePos {
             file_index: pos / self.piece_length as usize,
